@@ -190,7 +190,8 @@ let run_hcase (hd : string list) (body : string list) =
   if n > 60 then failwith "hcase: too many calls";
   if !final = "hung" then Printf.printf "M %s hung\n" id else begin
   let all = Array.make n true in
-  let (ok, prefix, stuck, nodes) = search !st calls all (fun s -> snap_s s = !final) in
+  let skip_final = (!final = "skip") in   (* a call panicked: the harness did not inspect the final state *)
+  let (ok, prefix, stuck, nodes) = search !st calls all (fun s -> skip_final || snap_s s = !final) in
   if ok then Printf.printf "M %s linearizable\n" id
   else begin
     (* subtrees touched by each call *)
@@ -203,7 +204,7 @@ let run_hcase (hd : string list) (body : string list) =
     let still_bad () =
       let keep t = not (List.mem t !dropped_tops) in
       let fin = snap_filter keep !final in
-      let (ok, _, _, _) = search !st calls active (fun s -> snap_filter keep (snap_s s) = fin) in
+      let (ok, _, _, _) = search !st calls active (fun s -> skip_final || snap_filter keep (snap_s s) = fin) in
       not ok in
     let all_tops = List.sort_uniq compare (List.concat (Array.to_list tops)) in
     List.iter (fun t ->
